@@ -36,7 +36,7 @@ def nevra_canonical(d):
     return "%s-%d:%s-%s.%s" % (d["name"], d["epoch"] or 0, d["version"], d["release"], d["arch"])
 
 
-INVALID_NEVRAS = ["foo", "foo:bar", "a-1:1-1", "a-b-c", "0:1", ":", "glibc-0:2.18", "x.y.z", "glibc.x86_64", "a:b-c"]
+INVALID_NEVRAS = ["", "foo", "foo:bar", "a-1:1-1", "a-b-c", "0:1", ":", "glibc-0:2.18", "x.y.z", "glibc.x86_64", "a:b-c"]
 
 
 @st.composite
@@ -69,8 +69,8 @@ def rpm_op(draw, families, allow_breaks=True):
           "sigkey": draw(st.one_of(st.none(), st.sampled_from(["246110C1", "246110c1", "FD431D51", "abcdef01", "ABCDEF01", "aBcDeF", "", "0", " "]))),
           "category": kind, "srpm": srpm_arg, "break": None}
     if allow_breaks and draw(st.integers(0, 3)) == 0:
-        brk = draw(st.sampled_from(["arch", "category", "abs-path", "no-epoch", "unparsable", "srpm-missing", "srpm-for-source",
-                                    "srpm-unparsable", "srpm-no-epoch", "category-arch"]))
+        brk = draw(st.sampled_from(["arch", "category", "abs-path", "empty-path", "no-epoch", "unparsable", "srpm-missing", "srpm-for-source",
+                                    "srpm-unparsable", "srpm-unparsable", "srpm-no-epoch", "category-arch"]))
         op["break"] = brk
         if brk == "arch":
             op["arch"] = draw(gen.bad_arch)
@@ -78,6 +78,8 @@ def rpm_op(draw, families, allow_breaks=True):
             op["category"] = draw(st.sampled_from(["package", "Binary", "", None, "src", "debuginfo"]))
         elif brk == "abs-path":
             op["path"] = "/" + op["path"]
+        elif brk == "empty-path":
+            op["path"] = ""
         elif brk == "no-epoch":
             op["nevra"] = dict(nevra, epoch=None)
         elif brk == "unparsable":
@@ -123,7 +125,7 @@ def rpm_model_apply(model, op):
         return False
     if op["category"] not in CATEGORIES:
         return False
-    if op["path"].startswith("/"):
+    if not op["path"] or op["path"].startswith("/"):
         return False
     nevra = op["nevra"]
     if "invalid" in nevra or nevra["epoch"] is None:
